@@ -266,7 +266,9 @@ class CircuitTemplate(AbstractBaseTemplate):
         self.__doc__ = description
         self.circuits = circuits
         self.nodes = nodes
-        self.edges = edges
+        # re-register the edges, such that `get_edge` and `update_var` address the edges this template now holds
+        self._edge_map = {}
+        self.edges = self._load_edge_templates(edges)
 
     def update_var(self, node_vars: dict = None, edge_vars: list = None):
         """Update the value of node or edge variables.
